@@ -142,7 +142,9 @@ PROPS['C04'] = {
 }
 PROPS['C05'] = {
     'modules': ['OtterVerif.Props.C04', 'OtterVerif.Props.C05'],
-    'engines': POLICY_ENGINES + [seq(['bound', 'deferredk1', 'deferred'], 240, 9000, lambda f: f['class'] in ('C05',))],
+    'engines': POLICY_ENGINES + [seq(['bound', 'deferredk1', 'deferred'], 240, 9000, lambda f: f['class'] in ('C05',)),
+                                 # "no entry present but unknown to the expiration policy": an entry the timer wheel does not know is never swept
+                                 seq(['huge', 'expiry'], 160, 6000, lambda f: f['class'] in ('C05', 'C13'))],
     'rule': POLICY_RULE, 'trusted': UNIT_TRUST + CONC_TRUST + SEQ_TRUST[1:],
 }
 
